@@ -235,7 +235,7 @@ def run_property(prop, module, conds, tier, seed=0, extra_evidence=None, extra_r
                     free = _gen(module, c, fixed, twin, fn)
                     if free is None:
                         continue
-                    jobs.append({"file": fn, "timeout": c.timeout.get(tier, 120) if not twin else min(c.timeout.get(tier, 120), 120),
+                    jobs.append({"file": fn, "timeout": c.timeout.get(tier, 120),
                                  "path_timeout": c.path_timeout, "free": free,
                                  "key": (c.name, k, twin), "fixed": fixed})
         import random
@@ -249,6 +249,9 @@ def run_property(prop, module, conds, tier, seed=0, extra_evidence=None, extra_r
     finally:
         shutil.rmtree(scratch, ignore_errors=True)
 
+    if os.environ.get("VERIF_VERBOSE"):
+        for r in sorted(results, key=lambda r: r["key"]):
+            sys.stderr.write("JOB %s %s paths=%d wall=%.0fs %s\n" % (r["key"], r["verdict"], r["paths"], r["wall"], r["msg"][:150]))
     bycond = {c.name: c for c in conds}
     jobby = {j["key"]: j for j in jobs}
     known = load_known(prop)
